@@ -9,7 +9,7 @@ open LLTD LLTD.Spec
 theorem history_varying (own : List Nat) (items : List (Cfg × Glob × List Nat)) (hitems : ∀ it ∈ items, ItemOk own it) (w : World) (hw : NoFault w) :
     holdsC05 own (C05.runObsV w {} items) = true :=
   ref_historyV own 300 holdsC05Rx (ItemOk own) (by decide) (fun _ h => h)
-    (fun c g w st img s hq hw _ hr => C05.step_holds c g w st img s hq.1 hw hr.mapper)
+    (fun c g w st img s hq hw _ hr => C05.step_holds c g w st img s hq.1 hw.noM hr.mapper)
     items w {} {} hitems hw init_inv ref_init
 
 end LLTD.C05H
